@@ -86,6 +86,7 @@ type Conn struct {
 	compression string
 	keyspace    string
 	registered  bool
+	started     bool
 	codec       frame.RawCodec
 	closed      bool
 }
@@ -110,6 +111,8 @@ type Backend struct {
 	seq          int
 	PrepText     map[string]string // prepared id hex -> query text
 	OnFrame      func(r *Rec)     // optional observer (called with be.mu held)
+	HostDefault  map[string]*Outcome // per-host outcome overriding scripts for data requests (nil = none)
+	Muted        map[string]bool     // hosts that read frames but never answer anything
 }
 
 var tokRe = regexp.MustCompile(`tok:([A-Za-z0-9_]+)`)
@@ -121,7 +124,7 @@ func New(prefix string, port int) *Backend {
 		MaxVersion: primitive.ProtocolVersionDse2, Script: map[string][]Outcome{},
 		Attempts: map[string]int{}, BadKeyspaces: map[string]message.Message{},
 		PrepareErr: map[string][]Outcome{}, prepAttempts: map[string]int{}, PrepText: map[string]string{},
-		Default: Outcome{Kind: OkRows},
+		Default: Outcome{Kind: OkRows}, HostDefault: map[string]*Outcome{}, Muted: map[string]bool{},
 	}
 }
 
@@ -208,6 +211,58 @@ func (h *Host) dropAll() {
 	for _, c := range conns {
 		c.close()
 	}
+}
+
+// ReadyConns counts the open connections of host n that completed STARTUP.
+func (b *Backend) ReadyConns(n int) int {
+	b.mu.Lock()
+	h := b.Hosts[b.IP(n)]
+	b.mu.Unlock()
+	if h == nil {
+		return 0
+	}
+	h.mu.Lock()
+	defer h.mu.Unlock()
+	k := 0
+	for c := range h.conns {
+		if c.started {
+			k++
+		}
+	}
+	return k
+}
+
+// PrepareEverywhere marks the statement as prepared on every host and returns its id.
+func (b *Backend) PrepareEverywhere(query string) []byte {
+	id := md5.Sum([]byte(query))
+	idh := hex.EncodeToString(id[:])
+	b.mu.Lock()
+	b.PrepText[idh] = query
+	hosts := make([]*Host, 0)
+	for _, h := range b.Hosts {
+		hosts = append(hosts, h)
+	}
+	b.mu.Unlock()
+	for _, h := range hosts {
+		h.mu.Lock()
+		h.Prepared[idh] = true
+		h.mu.Unlock()
+	}
+	return id[:]
+}
+
+// SetHostDefault makes every data request reaching host n get this outcome (nil clears it).
+func (b *Backend) SetHostDefault(n int, o *Outcome) {
+	b.mu.Lock()
+	b.HostDefault[b.IP(n)] = o
+	b.mu.Unlock()
+}
+
+// Mute makes host n swallow every frame without answering (heartbeats included).
+func (b *Backend) Mute(n int, on bool) {
+	b.mu.Lock()
+	b.Muted[b.IP(n)] = on
+	b.mu.Unlock()
 }
 
 func (b *Backend) Forget(n int) {
@@ -401,6 +456,21 @@ func (c *Conn) decode(hdr, body []byte) (*frame.Frame, error) {
 
 func (c *Conn) handle(hdr, body, raw []byte) bool {
 	be := c.host.be
+	be.mu.Lock()
+	muted := be.Muted[c.host.IP]
+	be.mu.Unlock()
+	if muted {
+		// still record data requests so that a trace shows where they went
+		if op := primitive.OpCode(hdr[4]); op == primitive.OpCodeQuery || op == primitive.OpCodeExecute || op == primitive.OpCodeBatch {
+			if m := tokRe.FindSubmatch(raw); m != nil {
+				be.mu.Lock()
+				be.Attempts[string(m[1])]++
+				c.logRec(Rec{Version: hdr[0] & 0x7f, Opcode: hdr[4], Flags: hdr[1], Raw: raw, Token: string(m[1]), Kind: "query", Attempt: be.Attempts[string(m[1])]})
+				be.mu.Unlock()
+			}
+		}
+		return true
+	}
 	version := primitive.ProtocolVersion(hdr[0] & 0x7f)
 	stream := int16(uint16(hdr[2])<<8 | uint16(hdr[3]))
 	opcode := primitive.OpCode(hdr[4])
@@ -452,6 +522,9 @@ func (c *Conn) handle(hdr, body, raw []byte) bool {
 		}
 		c.logRec(rec)
 		be.mu.Unlock()
+		c.host.mu.Lock()
+		c.started = true
+		c.host.mu.Unlock()
 		c.sendMsg(stream, &message.Ready{})
 		return true
 	case primitive.OpCodeRegister:
@@ -607,6 +680,9 @@ func (c *Conn) handle(hdr, body, raw []byte) bool {
 			}
 			out = outs[i]
 		}
+	}
+	if hd := be.HostDefault[c.host.IP]; hd != nil {
+		out = *hd
 	}
 	c.logRec(rec)
 	be.mu.Unlock()
